@@ -144,6 +144,34 @@ def all_close(keys):
     return all(v == first or (agrees(v, first) is True and agrees(first, v) is True) for v in vals[1:])
 
 
+DEEP_SCHEDULES = [[(0, 1.0)], [(0, 0.3), (0, 0.6), (0, 1.0)], [(0, 0.8), (0, 0.8), (0, 1.0)], [(0, 0.5), (1, 1.0)], [(1, 0.9), (0, 0.2), (1, 0.55), (0, 1.0)],
+                  [(0, 1.0), (0, 1.0)], [(0, 0.1), (0, 0.2), (0, 0.3), (0, 0.4), (0, 0.5), (0, 0.6), (0, 0.7), (0, 0.8), (0, 0.9), (0, 1.0)]]
+
+
+def deep_worker(items):
+    """a chain of n formula cells (Deterministic / Idempotent of XlWorkbook in their two-run form: the specification's value lies
+    beyond what the implementation's descent reaches, so the runs are compared with each other): the LAST response of every schedule"""
+    L = xl.lib()
+    out = []
+    for n, sched in items:
+        d = {'Sheet1!A1': 1, 'Sheet1!B1': 2}
+        for r in range(2, n + 1):
+            d[f'Sheet1!A{r}'] = f'=A{r - 1}+B1' if r % 7 else f'=A{r - 1}+1'
+        model = L.ModelCompiler().read_and_parse_dict(d)
+        evs = [L.Evaluator(model), L.Evaluator(model)]
+        obs = None
+        for e, frac in sched:
+            row = max(2, int(n * frac))
+            try:
+                obs = xl.to_abs(evs[e].evaluate(f'Sheet1!A{row}'))
+            except BaseException as ex:      # noqa
+                if isinstance(ex, (KeyboardInterrupt, SystemExit)):
+                    raise
+                obs = {'t': 'exc', 'cls': type(ex).__name__, 'about': 'recursion' if 'ecursion' in str(ex) else str(ex)[:60]}
+        out.append((n, sched, obs))
+    return out
+
+
 FOOTPRINT_SRC = r'''
 import gc, json, sys, tracemalloc
 sys.path.insert(0, %(verif)r)
@@ -191,7 +219,7 @@ def footprint(run, shapes, n):
     json.dump(shapes, open(path, 'w'))
     src = FOOTPRINT_SRC % {'verif': os.path.dirname(os.path.dirname(os.path.abspath(__file__))), 'shapes': path, 'warm': 1000, 'n': n}
     p = subprocess.run([sys.executable, '-c', src], stdout=subprocess.PIPE, stderr=subprocess.PIPE, text=True,
-                       env=dict(os.environ, PYTHONHASHSEED='0'), timeout=1200)
+                       env=dict(os.environ, PYTHONHASHSEED='0'), timeout=3000)
     if p.returncode != 0:
         raise xl.MachineryError('footprint subprocess failed: ' + p.stderr[-500:])
     rows = json.loads(p.stdout.strip().splitlines()[-1])
@@ -272,8 +300,23 @@ def run(run):
             run.disagree('schedule', {'shape': shape, 'inputs_set': inputs, 'cell': cell, 'schedules': list(obs.values())},
                          'one response for one content', [json.loads(k) for k in obs],
                          {'shape': shape, 'clause': 'response-depends-on-schedule'}, clause='response-depends-on-schedule')
-    fshapes = {k: v for k, v in shapes.items() if not quick or k in ('chain', 'range', 'kinds', 'twin')}
-    footprint(run, fshapes, 2000 if quick else 20000)
+    # chains below, around and beyond the depth the implementation descends to: one response per chain, whatever was evaluated before
+    deep = {}
+    for part in pool.pmap(deep_worker, [(n, sc) for n in (60, 200, 245, 255, 300, 700) for sc in DEEP_SCHEDULES], nchunks=16):
+        for n, sched, obs in part:
+            run.evaluations += len(sched)
+            deep.setdefault(n, {}).setdefault(json.dumps(obs, sort_keys=True), []).append(sched)
+    run.notes['deep_chain_responses'] = {str(n): [json.loads(k)['t'] for k in v] for n, v in deep.items()}
+    for n, variants in deep.items():
+        if len(variants) > 1 and not all_close(list(variants)):
+            run.disagree('schedule', {'shape': f'chain of {n} formula cells A(r) = A(r-1)+B1', 'cell': f'A{n}', 'schedules': list(variants.values())},
+                         'one response for one content', [json.loads(k) for k in variants],
+                         {'shape': 'deepchain', 'n': n, 'clause': 'response-depends-on-schedule'}, clause='response-depends-on-schedule')
+    if not any(json.loads(k)['t'] == 'num' for k in deep[60]):
+        raise xl.MachineryError('the 60-cell chain did not evaluate')
+    # (whole-row references and the 36-column range hold tens of thousands of placeholder cells: one evaluation costs seconds)
+    fshapes = {k: v for k, v in shapes.items() if (k in ('chain', 'range', 'kinds', 'twin') if quick else k not in ('wholerow', 'wide'))}
+    footprint(run, fshapes, 2000 if quick else 8000)
     run.rule = (f'all schedules (permutations with repetition) of length {maxlen} of Evaluate(evaluator in {{1,2}}, cell) on 5 model shapes, '
                 'plus all length-3 interleavings with Set(input); responses compared with the specification (hence with each other); '
                 'constants / formula texts / names / cell set snapshotted before and after every evaluation; footprint: gc-object and '
